@@ -242,6 +242,20 @@ Proof.
   - right. unfold kpi. field. split; lra.
 Qed.
 
+(** the same with the frequencies written out: z_k = i pi (2 n_k + 1)/beta, for every sign pattern that EDSpec.chi uses
+    (it passes z1, z2, -z3 in the six orders; -z3 is again fermionic: [is_fermi_opp]) *)
+Corollary phi_term_bound_matsubara (beta W : R) (tol : C) (n1 n2 n3 : Z) (Ei Ej Ek El wi wj wk wl : R) :
+  0 < beta ->
+  0 <= wi <= W -> 0 <= wj <= W -> 0 <= wk <= W -> 0 <= wl <= W ->
+  wk = wi * exp (- beta * (Ek - Ei)) -> wl = wj * exp (- beta * (El - Ej)) ->
+  Cmod (phiC (RtoC beta) tol (RtoC Ei) (RtoC Ej) (RtoC Ek) (RtoC El) (RtoC wi) (RtoC wj) (RtoC wk) (RtoC wl)
+          (0, fermi_freq beta n1) (0, fermi_freq beta n2) (0, fermi_freq beta n3))
+    <= W * (beta * beta * beta * (4 / (PI * PI * PI) + 2 / (PI * PI))).
+Proof.
+  intros Hb Wi Wj Wk Wl G12 G23. fold kpi.
+  apply phi_term_bound_fermi; try assumption; eexists; reflexivity.
+Qed.
+
 (** * 3. Finite sums of complex numbers (EDSpec.ksum at CNum) *)
 
 Notation ksumC := (EDSpec.ksum C CNum).
@@ -306,8 +320,6 @@ Proof.
     + rewrite (lsum_enum_nth (RtoC 0)), L. cbn [fst]. right. reflexivity.
 Qed.
 
-(** square matrices as lists of rows *)
-Definition sq (n : nat) (O : list (list C)) : Prop := length O = n /\ forall row, In row O -> length row = n.
 Lemma sq_row (n : nat) (O : list (list C)) (i : nat) : sq n O -> (i < n)%nat -> length (nth i O []) = n.
 Proof. intros [L R] Hi. apply R. apply nth_In. lia. Qed.
 
@@ -381,9 +393,6 @@ Proof.
     + rewrite lsum_plus, !lsum_scal. lra.
     + intros i _. rewrite lsum_plus, !lsum_scal. reflexivity.
 Qed.
-
-(** squared Frobenius norm of a matrix given as a list of rows *)
-Definition frob2 (O : list (list C)) : R := lsum (fun row => lsum (fun x => Cmod x * Cmod x) row) O.
 
 Lemma lsum_as_seq {A} (d : A) (f : A -> R) (l : list A) : lsum f l = lsum (fun i => f (nth i l d)) (seq 0 (length l)).
 Proof. rewrite <- (lsum_enum_snd f l), (lsum_enum_nth d). reflexivity. Qed.
@@ -826,4 +835,106 @@ Proof.
   intros E V Hb He Hz QA QB Er wr drop.
   destruct (dm_weight_hypotheses beta eps H D blk pos n E V) as [W1 [W2 W3]].
   apply (susc_spec_truncation_bound n); assumption.
+Qed.
+
+(** * 7. Non-vacuity: the Hubbard atom in a field
+
+    One orbital, modes 0 = up, 1 = down; H = U n_up n_dn - mu (n_up + n_dn) - h (n_up - n_dn) with U = 1, mu = 1, h = -1;
+    eigenstates = Fock states |0>, |up>, |dn>, |up dn> with energies 0, 0, -2, -1 (four blocks); beta = 2.
+    Weights e^{-2 E}/Z, Z = 2 + e^4 + e^2: w(|0>) = w(|up>) = 1/Z <= 1/10, so at eps = 1/10 the blocks of |0> and |up> are
+    discarded, and the chains 0 -> 1 -> 0 -> 1 of chi_{up up up up} (orderings c c^+ c c^+) are genuinely omitted. *)
+Definition hub_E : list R := [0; 0; -2; -1].
+Definition hub_Z : R := 2 + exp 4 + exp 2.
+Definition hub_w : list R := map (fun e => exp (- 2 * e) / hub_Z) hub_E.
+Definition c0 : C := RtoC 0.
+Definition c1 : C := RtoC 1.
+(** <row| c_up |col> in the basis |0>, |up>, |dn>, |up dn>, and its adjoint *)
+Definition hub_cup : list (list C) := [[c0; c1; c0; c0]; [c0; c0; c0; c0]; [c0; c0; c0; c1]; [c0; c0; c0; c0]].
+Definition hub_cupx : list (list C) := [[c0; c0; c0; c0]; [c1; c0; c0; c0]; [c0; c0; c0; c0]; [c0; c0; c1; c0]].
+Definition hub_drop (s : nat) : bool := Nat.ltb s 2.
+
+Lemma hub_Z_ge_10 : 10 <= hub_Z.
+Proof. unfold hub_Z. pose proof (exp_ineq1_le 4). pose proof (exp_ineq1_le 2). lra. Qed.
+
+Lemma gibbs_weights_list (beta Z : R) (Er : list R) : 0 < Z ->
+  let wr := map (fun e => exp (- beta * e) / Z) Er in
+  (forall s, (s < length Er)%nat -> 0 <= nth s wr 0) /\
+  (forall s t, (s < length Er)%nat -> (t < length Er)%nat ->
+     nth t wr 0 = nth s wr 0 * exp (- beta * (nth t Er 0 - nth s Er 0))).
+Proof.
+  intros HZ wr.
+  assert (N : forall s, (s < length Er)%nat -> nth s wr 0 = exp (- beta * nth s Er 0) / Z).
+  { intros s Hs. unfold wr. rewrite (nth_indep _ 0 ((fun e => exp (- beta * e) / Z) 0)) by (rewrite map_length; exact Hs).
+    apply (map_nth (fun e => exp (- beta * e) / Z)). }
+  split.
+  - intros s Hs. rewrite (N s Hs). left. apply Rdiv_lt_0_compat; [apply exp_pos|exact HZ].
+  - intros s t Hs Ht. rewrite (N s Hs), (N t Ht).
+    replace (- beta * nth t Er 0) with (- beta * nth s Er 0 + - beta * (nth t Er 0 - nth s Er 0)) by ring.
+    rewrite exp_plus. field. lra.
+Qed.
+
+Lemma hub_sq_cup : sq 4 hub_cup.
+Proof. split; [reflexivity|]. intros row Hr. cbn in Hr. repeat (destruct Hr as [<-|Hr]; [reflexivity|]). destruct Hr. Qed.
+Lemma hub_sq_cupx : sq 4 hub_cupx.
+Proof. split; [reflexivity|]. intros row Hr. cbn in Hr. repeat (destruct Hr as [<-|Hr]; [reflexivity|]). destruct Hr. Qed.
+Lemma hub_frob_cup : frob2 hub_cup <= INR 4 / 2.
+Proof. unfold frob2, hub_cup, c0, c1. cbn [lsum INR]. rewrite !Cmod_R, Rabs_R0, Rabs_R1. lra. Qed.
+Lemma hub_frob_cupx : frob2 hub_cupx <= INR 4 / 2.
+Proof. unfold frob2, hub_cupx, c0, c1. cbn [lsum INR]. rewrite !Cmod_R, Rabs_R0, Rabs_R1. lra. Qed.
+
+Lemma hub_weights :
+  (forall s, (s < 4)%nat -> 0 <= nth s hub_w 0) /\
+  (forall s, (s < 4)%nat -> hub_drop s = true -> nth s hub_w 0 <= 1 / 10) /\
+  (forall s t, (s < 4)%nat -> (t < 4)%nat -> nth t hub_w 0 = nth s hub_w 0 * exp (- 2 * (nth t hub_E 0 - nth s hub_E 0))).
+Proof.
+  pose proof hub_Z_ge_10 as Z10.
+  destruct (gibbs_weights_list 2 hub_Z hub_E ltac:(lra)) as [P G]. split; [exact P|]. split; [|exact G].
+  intros s Hs Hd. unfold hub_drop in Hd. apply Nat.ltb_lt in Hd.
+  assert (E : nth s hub_w 0 = 1 / hub_Z).
+  { destruct s as [|[|s]]; [| |lia]; cbn [hub_w hub_E map nth];
+      (replace (- 2 * 0) with 0 by ring); rewrite exp_0; reflexivity. }
+  rewrite E. unfold Rdiv. rewrite !Rmult_1_l. apply Rinv_le_contravar; lra.
+Qed.
+
+(** some chain is really dropped: states 0 and 1 are dropped and <0|c_up|1> <1|c^+_up|0> <0|c_up|1> <1|c^+_up|0> = 1 *)
+Example hub_chain_dropped :
+  all_dropped4 hub_drop 0 1 0 1 = true /\
+  Cmult (Cmult (Cmult (EDSpec.mget C CNum hub_cup 0 1) (EDSpec.mget C CNum hub_cupx 1 0)) (EDSpec.mget C CNum hub_cup 0 1))
+        (EDSpec.mget C CNum hub_cupx 1 0) = RtoC 1.
+Proof. split; [reflexivity|]. cbn. unfold c1. apply injective_projections; cbn; ring. Qed.
+
+(** all hypotheses of tpgf_truncation_bound_half_dim hold for chi_{up up up up} of this atom at beta = 2, eps = 1/10,
+    every present-mask and every triple of fermionic Matsubara frequencies; the bound reads 4^2 2^3 (1/10)/2 = 6.4 *)
+Example hub_tpgf_bound (tol : C) (pres : list nat -> nat -> nat -> nat -> nat -> bool) (n1 n2 n3 : Z) :
+  Cmod (Cminus
+    (chi_mask C CNum (trunc_keep4 hub_drop pres) (RtoC 2) tol (map RtoC hub_E) (map RtoC hub_w) hub_cup hub_cup hub_cupx hub_cupx
+       (0, fermi_freq 2 n1) (0, fermi_freq 2 n2) (0, fermi_freq 2 n3))
+    (chi_mask C CNum pres (RtoC 2) tol (map RtoC hub_E) (map RtoC hub_w) hub_cup hub_cup hub_cupx hub_cupx
+       (0, fermi_freq 2 n1) (0, fermi_freq 2 n2) (0, fermi_freq 2 n3)))
+  <= / 2 * (INR 4 * INR 4) * (2 * 2 * 2) * (1 / 10).
+Proof.
+  destruct hub_weights as [W1 [W2 W3]].
+  apply (tpgf_truncation_bound_half_dim 4 2 (1 / 10) tol hub_E hub_w); try assumption; try lra;
+    first [apply hub_sq_cup | apply hub_sq_cupx | apply hub_frob_cup | apply hub_frob_cupx].
+Qed.
+
+(** the susceptibility <n_up ; n_up> of the same atom: A = B = c^+_up c_up = diag(0,1,0,1); the (1,1) term is dropped
+    and resonant (it contributes beta w_1 at W_0); hypotheses of susc_spec_truncation_bound at every imaginary z *)
+Definition hub_nup : list (list C) := [[c0; c0; c0; c0]; [c0; c1; c0; c0]; [c0; c0; c0; c0]; [c0; c0; c0; c1]].
+Lemma hub_sq_nup : sq 4 hub_nup.
+Proof. split; [reflexivity|]. intros row Hr. cbn in Hr. repeat (destruct Hr as [<-|Hr]; [reflexivity|]). destruct Hr. Qed.
+Lemma hub_frob_nup : frob2 hub_nup = 2.
+Proof. unfold frob2, hub_nup, c0, c1. cbn [lsum]. rewrite !Cmod_R, Rabs_R0, Rabs_R1. lra. Qed.
+
+Example hub_susc_bound (tol : C) (y : R) (zf : bool) (pres : nat -> nat -> bool) :
+  Cmod (Cminus
+    (susc_mask C CNum (trunc_keep2 hub_drop pres) (RtoC 2) tol (map RtoC hub_E) (map RtoC hub_w) hub_nup hub_nup (0, y) zf)
+    (susc_mask C CNum pres (RtoC 2) tol (map RtoC hub_E) (map RtoC hub_w) hub_nup hub_nup (0, y) zf))
+  <= 2 * (1 / 10) * 2.
+Proof.
+  destruct hub_weights as [W1 [W2 W3]].
+  eapply Rle_trans.
+  - apply (susc_spec_truncation_bound 4 2 (1 / 10) tol (0, y) zf hub_E hub_w hub_nup hub_nup hub_drop pres);
+      try assumption; try lra; try reflexivity; apply hub_sq_nup.
+  - rewrite hub_frob_nup. lra.
 Qed.
